@@ -103,6 +103,26 @@ def scenarios():
                 h += [[S("probe"), Q(S("result")), use], [S("probe"), Q(S("x-after")), S("x")], [S("set"), Q(S("y")), 5],
                       guard([S("probe"), Q(S("y-in-app")), S("%s:y" % app)]), guard([S("probe"), Q(S("y-in-lib")), S("%s:y" % lib)])]
                 out.append(h)
+    # a MACRO defined in another package runs its body (expansion-time code) with ITS package current: unqualified
+    # helpers and variables used while expanding are the defining package's, next to same-named ones of the caller
+    for caller in ("user", "p2"):
+        for what in ("helper", "variable", "set", "nested-macro"):
+            h = [[S("in-package"), Q(S("p1"))], [S("defun"), S("scale"), [S("v")], [S("*"), S("v"), 10]], [S("set"), Q(S("uses")), 100]]
+            if what == "helper":
+                h.append([S("defmacro"), S("mac"), [S("e")], [S("list"), Q(S("+")), [S("scale"), 2], S("e")]])
+            elif what == "variable":
+                h.append([S("defmacro"), S("mac"), [S("e")], [S("list"), Q(S("+")), S("uses"), S("e")]])
+            elif what == "set":
+                h.append([S("defmacro"), S("mac"), [S("e")], [S("set"), Q(S("uses")), [S("+"), S("uses"), 1]], [S("list"), Q(S("+")), 0, S("e")]])
+            else:
+                h += [[S("defmacro"), S("inner"), [], [S("scale"), 3]], [S("defmacro"), S("mac"), [S("e")], [S("list"), Q(S("+")), [S("inner")], S("e")]]]
+            h += [[S("export"), Q(S("mac"))], [S("in-package"), Q(S(caller))],
+                  [S("defun"), S("scale"), [S("v")], [S("-"), S("v")]], [S("set"), Q(S("uses")), 1], guard([S("use-package"), Q(S("p1"))]),
+                  guard([S("probe"), Q(S("call")), [S("mac"), 5]]), guard([S("probe"), Q(S("qualified")), [S("p1:mac"), 5]]),
+                  guard([S("probe"), Q(S("mx")), [S("macroexpand"), Q([S("p1:mac"), 5])]]),
+                  guard([S("probe"), Q(S("own")), S("uses"), [S("scale"), 1]]), guard([S("probe"), Q(S("theirs")), S("p1:uses")]),
+                  [S("defun"), S("wrapper"), [], [S("mac"), 1]], guard([S("probe"), Q(S("in-fn")), [S("wrapper")]]), guard([S("probe"), Q(S("theirs2")), S("p1:uses")])]
+            out.append(h)
     # the language package itself changes while packages are being created: a new package starts with the language
     # package's exports AS THEY ARE when it is created (a package created earlier keeps what it imported then)
     for first_before in (False, True):
